@@ -222,6 +222,11 @@ class Resolver:
             selfb = base_name(selfty)
             selfb = ex_type_env(ex).get(selfb, selfb)
             cands = self.by_trait.get((tr, selfb, method))
+            if cands and re.match(r'^[A-Z]\d?$', selfb or ''):
+                # a one-letter Self is almost always a type parameter of the calling function; a local type of that name
+                # (e.g. `struct V;` inside some function) only counts when we are executing inside that function
+                cur = ex.cur_fn[-1] if ex.cur_fn else ''
+                cands = [n for n in cands if cur.startswith(n.split('::<impl')[0] + '::') or cur == n.split('::<impl')[0]]
             if cands and len(cands) > 1:
                 want = norm_ty(inner[cut + 4:])
                 full = self.by_trait_full.get((want, selfb, method))
